@@ -3,7 +3,7 @@
 use crate::engine::{call, Acc, Ctx, Out, Report};
 use crate::refmodel::calendar as cal;
 use crate::refmodel::tzif::{self as rz, Rule, Zone};
-use astrolabe::Offset;
+use astrolabe::{DateUtilities, Offset, OffsetUtilities, TimeUtilities};
 use serde_json::{json, Value};
 use std::time::Duration;
 
@@ -132,8 +132,19 @@ fn case_local(name: &str, bytes: &[u8], z: &Zone, t: i64, acc: &mut Acc) {
     astrolabe::verif_hooks::set_localtime_bytes(Some(bytes.to_vec()));
     astrolabe::verif_hooks::set_now(Some(Duration::from_secs(t as u64)));
     let got = call(|| Offset::Local.resolve());
+    // DateTime::now_local(): the pinned instant, read on the wall clock of the zone
+    let now_local = call(|| {
+        let x = astrolabe::DateTime::now_local();
+        (x.timestamp(), x.hour(), x.minute(), x.second(), x.get_offset() == Offset::Local)
+    });
     astrolabe::verif_hooks::set_localtime_bytes(None);
     astrolabe::verif_hooks::set_now(None);
+    let wall = (t + want as i64).rem_euclid(86_400);
+    let want_now = (t, (wall / 3600) as u32, (wall / 60 % 60) as u32, (wall % 60) as u32, true);
+    acc.transitions += 1;
+    if now_local != Out::Val(want_now) {
+        acc.violation("DateTime::now_local", "wall-clock-of-the-current-time", json!({"kind": "local", "name": name, "t": t, "bytes_hex": if bytes.len() <= 600 { hex(bytes) } else { String::new() }}), format!("{:?}", want_now), now_local.show());
+    }
     if got != Out::Val(want) {
         acc.violation("Offset::Local.resolve", "local-offset", json!({"kind": "local", "name": name, "t": t, "bytes_hex": if bytes.len() <= 600 { hex(bytes) } else { String::new() }}), want.to_string(), got.show());
     }
